@@ -6,17 +6,18 @@ LEVEL_TEXT = ("K: canonicity predicates on all 256 input bits (real ed25519_ref1
               "the modular reduction, expand_message_xmd layout.")
 TRUSTED = ["CBMC 6.11 + uninterpreted functions", "abstract group model (stubs/ideal_ed25519.c)", "L and p constants transcribed in the harness"]
 ASSUMPTIONS = ["scalar_add/sub: inputs reduced (as documented)", "scalar_random: accepted within 2 draws"]
-OUTSIDE = ["exactness of point addition/doubling/decoding/scalar multiplication and of sc25519_reduce/mul/muladd/invert against arithmetic on the curve / mod L: "
-           "algebraic identities over GF(2^255-19) and 21-bit-limb reductions with symbolic multiplications - no back end available here decides them (DESIGN.md C07)",
+OUTSIDE = ["exactness of point addition/doubling/decoding/scalar multiplication against arithmetic on the curve (the Edwards formulas and the square-root chain; the field kernels they are made of ARE decided: E2 limb mode)",
+           "sc25519_reduce / mul / muladd: the value before serialisation lying in [0, 2^256) and the output being the canonical representative (< L) -- the congruence mod L, the absence of int64 overflow for all inputs and the inversion exponent ARE decided (E2 limb mode)",
            "Elligator / Ristretto maps and the Ristretto encode/decode formulas (abstract here)", "main-subgroup test"]
 CORE = ["crypto_core/ed25519/core_ed25519.c", "crypto_scalarmult/ed25519/ref10/scalarmult_ed25519_ref10.c", "sodium/utils.c", "crypto_verify/verify.c"]
 STUBS = ["ideal_ed25519.c", "ideal_hash.c", "rng.c", "misuse.c", "libc.c", "x86_builtins.c"]
 
 
-E2_LIMB = ['fe25519-51']
+E2_LIMB = ["fe25519-51", "sc25519", "sc25519-invert"]
 
 
-LEVEL_TEXT = LEVEL_TEXT + (" Field kernels (E2 irsym limb mode): fe25519_mul/sq/sq2/mul32/add/sub/neg of the Edwards unit == the field operation mod 2^255-19 with limb bounds, for all limbs in the stated ranges.")
+LEVEL_TEXT = LEVEL_TEXT + (" Field kernels (E2 irsym limb mode): fe25519_mul/sq/sq2/mul32/add/sub/neg of the Edwards unit == the field operation mod 2^255-19 with limb bounds, for all limbs in the stated ranges."
+                           " Scalar kernels (E2 limb mode): sc25519_reduce / sc25519_mul / sc25519_muladd (21-bit signed limbs) on all 64- resp. 32-byte inputs: output == input resp. a*b resp. a*b+c (mod L), no signed overflow; sc25519_invert == s^(L-2).")
 
 
 def obligations(tier):
